@@ -231,8 +231,14 @@ func generateInWatchMode(configArgs map[string]string) (dirsToWatch []string) {
 // Returns dir and every directory below it
 func withSubdirectories(dir string) []string {
 	dirs := []string{dir}
-	filepath.Walk(dir, func(path string, info os.FileInfo, err error) error {
-		if err == nil && info.IsDir() && path != dir {
+	// A package directory may be a symbolic link, which Walk does not follow, not even
+	// as its root.
+	root := dir
+	if resolved, err := filepath.EvalSymlinks(dir); err == nil {
+		root = resolved
+	}
+	filepath.Walk(root, func(path string, info os.FileInfo, err error) error {
+		if err == nil && info.IsDir() && path != root {
 			dirs = append(dirs, path)
 		}
 		return nil
